@@ -18,6 +18,11 @@
 //	    decoder, to the same mnemonic and the same operand registers / widths -
 //	    per architecture, without any opcode table.
 //
+//	(6) decoders as the simulator builds them (built.go): timing CUs, emulation
+//	    and timing platforms of both architectures built in one process in
+//	    several orders; every decoder obtained is compared with a fresh one of
+//	    its owner's architecture after every build step.
+//
 // The mnemonic and the operand widths a row must decode to come from the
 // manuals' tables of the decoder's architecture (manual.go), not from the
 // decoder; what the manuals do not cover is listed by name in the evidence.
@@ -175,7 +180,7 @@ func (o *childOut) flush() {
 		sort.Strings(items)
 		o.rec.Note("list", listNote{List: l, Items: items})
 	}
-	o.rec.Note("evals", o.counters["rt_patterns"]+o.counters["promo_pairs"]+o.counters["tot_inputs"]+o.counters["corpus_instructions"]+o.counters["mix_sequence_checks"])
+	o.rec.Note("evals", o.counters["rt_patterns"]+o.counters["promo_pairs"]+o.counters["built_decodes_compared"]+o.counters["tot_inputs"]+o.counters["corpus_instructions"]+o.counters["mix_sequence_checks"])
 	for i := 0; i < len(o.nontriv); i += 500 {
 		j := i + 500
 		if j > len(o.nontriv) {
@@ -237,6 +242,9 @@ func main() {
 	}
 	for arch := 0; arch < 2; arch++ {
 		parts = append(parts, part{Kind: "promo", Arch: arch, N: c.N(2, 40)})
+	}
+	for o := 0; o < numBuiltCanonOrders+c.N(1, 4); o++ {
+		parts = append(parts, part{Kind: "built", Sub: o, N: c.N(100, 400)})
 	}
 	const corpusGroups = 8
 	for g := 0; g < corpusGroups; g++ {
@@ -415,6 +423,9 @@ func main() {
 			"Disassembler and compared field by field (plus printing, second instance, junk suffix, exact-length buffer); non-trivial = distinct " +
 			"(arch/format/opcode, pattern) whose decode returned an instruction or a classified failure; the decoded mnemonic of every row is compared with the manual's; " +
 			"a promotion pair = the e32 and the e64 encoding of one VOP1 / VOP2 / VOPC description decoded by one decoder and compared with each other (mnemonic, operand registers, widths); " +
+			"a built-decoder comparison = one encoding (architecture-sensitive battery + seeded round-trip sample) decoded by the decoder a component was built with " +
+			"(timing CU via cu.MakeBuilder with / without WithCDNA3Decoding, emulation platforms gcn3 / cdna3 via emusystem/emugpu, timing platforms r9nano / mi300a; both architectures " +
+			"in one process, canonical and seeded build orders, re-checked after every later build step) and compared field by field with a fresh Disassembler of the component's architecture; " +
 			"totality inputs and corpus kernels are counted in events",
 		Assumptions: []string{
 			"the encoder vlib/gcnasm (written from docs/cdna3_insts.pdf ch.13 and the GCN3 manual ch.13) is the reference for bit positions; it is itself cross-checked by re-encoding all shipped kernels",
@@ -422,10 +433,13 @@ func main() {
 			"spellings accepted as the same mnemonic: case, _e32/_e64/_sdwa/_dpp suffix, surrounding blanks, integer-compare synonyms lg = ne and tru = t (the GCN3 manual itself uses LG / TRU in its compare-operation table), GFX9's _co renames of v_addc/v_subb/v_subbrev_u32 - and only when the architecture's manual does not give the decoder's spelling to another opcode (counter rt_names_documented_rename)",
 			"rows of the shared decode table whose opcode the configured architecture's manual does not define are judged by the other architecture's manual (list_judged_by_other_arch); rows neither manual names are round-tripped without a name / width expectation (list_not_judged); rows whose widths the rule set does not model: list_widths_not_modelled; manual opcodes without a decoder row: list_manual_opcodes_without_row",
 			"supported instruction = row of the decoder's own table (found by probing every opcode value of every format); in addition the e64 encoding of a VOP1 / VOP2 / VOPC instruction that decodes in its e32 encoding and that the architecture's manual defines must decode too (the literal-K opcodes v_madmk / v_madak have no e64 form)",
+			"built decoders: construction sites of insts.NewDisassembler() are cu.Builder.Build (per timing CU), emugpu.Builder.buildComputeUnits (per emulated GPU, shared by its CUs) and the gcn3disassembler command (default instance = the harness' own gcn3 decoders); the emulation CU's decoder field is unexported and read through reflection; sharing one object between components is counted, not judged - only behaviour that differs from a fresh decoder of the component's configured architecture is a violation",
 			"explicit panics matching 'not implemented|not supported' are accepted diagnostics; only runtime errors (nil dereference, index/slice bounds) and process death count as faults",
 		},
 		MinNontrivial: 20000,
 		MinCounters: map[string]int64{
+			"built_orders": 3, "built_steps": 25, "built_components_gcn3": 300, "built_components_cdna3": 300, "built_decodes_compared": 50000,
+			"built_steps_cuG": 4, "built_steps_cuC": 4, "built_steps_emuG": 2, "built_steps_emuC": 2, "built_steps_platR9": 2, "built_steps_platMI": 2,
 			"rt_rows": 1500, "rt_rows_width_checked": 1900, "rt_names_compared": 1900, "promo_opcodes_compared": 600, "promo_pairs_compared": 2500, "rt_decodes": 60000, "tot_inputs": 150000, "tot_outcome_inst": 10000, "tot_outcome_error": 10000,
 			"corpus_kernels": 120, "corpus_bytes_consumed": 200000, "suffix_checks": 50000, "instance_checks": 100000, "sequence_checks": 100000, "mix_sequence_checks": 20000,
 		},
